@@ -49,13 +49,20 @@ static void xv_phrase_flow (const void *data, size_t n)
     }
 }
 
+/* loop-free byte copies (a loop or a memcpy model with a loop inside a stub
+   would need its own contract when the stub is called from a contracted loop) */
+#define XV_COPY4(d, s, o) (d)[(o)] = (s)[(o)]; (d)[(o) + 1] = (s)[(o) + 1]; (d)[(o) + 2] = (s)[(o) + 2]; (d)[(o) + 3] = (s)[(o) + 3]
+#define XV_COPY16_AT(d, s, o) XV_COPY4 (d, s, o); XV_COPY4 (d, s, (o) + 4); XV_COPY4 (d, s, (o) + 8); XV_COPY4 (d, s, (o) + 12)
+#define XV_COPY16(d, s) XV_COPY16_AT (d, s, 0)
+#define XV_COPY32(d, s) XV_COPY16_AT (d, s, 0); XV_COPY16_AT (d, s, 16)
+#define XV_COPY64(d, s) XV_COPY16_AT (d, s, 0); XV_COPY16_AT (d, s, 16); XV_COPY16_AT (d, s, 32); XV_COPY16_AT (d, s, 48)
+
 #define XV_DIGEST_STUB(D, CTX_T, N, INIT, UPDATE, FINAL, UPD_LEN_T)                              \
   int xv_##D##_state;            /* 0 RAW, 1 READY */                                            \
   const void *xv_##D##_ctx;                                                                      \
-  struct xv_##D##_blk { unsigned char b[N]; };                                                   \
   unsigned char xv_##D##_last[N];  /* ghost copy of the most recent digest */                    \
   unsigned xv_##D##_finals;                                                                      \
-  const void *xv_##D##_upd_p; size_t xv_##D##_upd_n;   /* ghost: the most recent update */       \
+  size_t xv_##D##_upd_n;   /* ghost: length of the most recent update */                         \
   void INIT (CTX_T *ctx)                                                                         \
   {                                                                                              \
     XV_STUBPRE ("C04", XV_W_OK (ctx, sizeof *ctx), #INIT ": context is writable");               \
@@ -67,7 +74,7 @@ static void xv_phrase_flow (const void *data, size_t n)
                 #UPDATE ": context was initialised and not yet finalised");                      \
     XV_STUBPRE ("C04", n == 0 || XV_R_OK (data, n), #UPDATE ": data has n readable bytes");      \
     xv_phrase_flow (data, n);                                                                    \
-    xv_##D##_upd_p = data; xv_##D##_upd_n = n;                                                   \
+    xv_##D##_upd_n = n;                                                                          \
   }                                                                                              \
   void FINAL (uint8_t *out, CTX_T *ctx)                                                          \
   {                                                                                              \
@@ -77,7 +84,7 @@ static void xv_phrase_flow (const void *data, size_t n)
     /* loop-free (a loop here would need its own contract inside the callers'                  \
        contracted loops): arbitrary digest value, remembered in the ghost copy */                 \
     XV_HAVOC_SLICE (out, N);                                                                     \
-    *(struct xv_##D##_blk *) xv_##D##_last = *(const struct xv_##D##_blk *) out;                 \
+    XV_COPY##N (xv_##D##_last, out);      /* loop-free ghost copy, see XV_COPY16 */              \
     xv_##D##_state = 0; xv_##D##_finals++;                                                       \
   }
 #endif
